@@ -80,7 +80,7 @@ func discharge(fr *FuncResult, workdir string, perOblS int, sem chan struct{}, t
 				defer wg0.Done()
 				f := fmt.Sprintf("%s.q%p.smt2", base, o)
 				if k := os.Getenv("GOVC_KEEPQ"); k != "" && strings.Contains(o.Name, k) {
-					os.WriteFile("/tmp/keepq.smt2", []byte(fr.Em.standalone(o, "", false)), 0o644)
+					os.WriteFile(fmt.Sprintf("/tmp/keepq.%p.smt2", o), []byte("; "+o.Name+" "+o.Pos+"\n"+fr.Em.standalone(o, "", false)), 0o644)
 				}
 				os.WriteFile(f, []byte(fr.Em.standalone(o, "", false)), 0o644)
 				sem <- struct{}{}
@@ -189,7 +189,7 @@ func discharge(fr *FuncResult, workdir string, perOblS int, sem chan struct{}, t
 // definite answer.
 func race(fr *FuncResult, o *Obligation, mode, base string, perOblS int, sem chan struct{}, skip string) (string, string, float64, string) {
 	script := fr.Em.standalone(o, mode, true)
-	file := fmt.Sprintf("%s.%s%s.smt2", base, sanitize(strings.TrimPrefix(o.Name, fr.Key+"/")), mode)
+	file := fmt.Sprintf("%s.%s.%p%s.smt2", base, sanitize(strings.TrimPrefix(o.Name, fr.Key+"/")), o, mode)
 	if len(file) > 240 {
 		file = fmt.Sprintf("%s.o%p%s.smt2", base, o, mode)
 	}
